@@ -714,24 +714,31 @@ Section InsertKnown.
     - apply insert_known_inv; [rewrite Hk; exact Hin | exact H1].
   Qed.
 
-  Lemma dial_outcome_inv k s peer outcome errs tcp ws :
-    (forall a, In a (tcp ++ ws) -> In a (keys s) /\ names peer a = true) -> SInv P k s ->
-    SInv P k (dial_outcome k s peer outcome errs tcp ws).
+  Lemma dial_outcome_inv k s peer outcome errs tcp ws qu :
+    (forall a, In a (tcp ++ ws ++ qu) -> In a (keys s) /\ names peer a = true) -> SInv P k s ->
+    SInv P k (dial_outcome k s peer outcome errs tcp ws qu).
   Proof.
     intros Hl Hs. unfold dial_outcome.
     assert (Ht : forall a, In a (map fst (tag_errs errs 0 tcp)) -> In a (keys s) /\ names peer a = true).
     { intros a Ha. rewrite tag_errs_fst in Ha. apply Hl. apply in_or_app. now left. }
     assert (Hw : forall a, In a (map fst (tag_errs errs (length tcp) ws)) -> In a (keys s) /\ names peer a = true).
-    { intros a Ha. rewrite tag_errs_fst in Ha. apply Hl. apply in_or_app. now right. }
+    { intros a Ha. rewrite tag_errs_fst in Ha. apply Hl. apply in_or_app. right. apply in_or_app. now left. }
+    assert (Hq : forall a, In a (map fst (tag_errs errs (length tcp + length ws) qu)) ->
+                           In a (keys s) /\ names peer a = true).
+    { intros a Ha. rewrite tag_errs_fst in Ha. apply Hl. apply in_or_app. right. apply in_or_app. now right. }
     destruct outcome as [|j0].
     - destruct (fail_each_inv k s (tag_errs errs 0 tcp)) as [H1 Hk]; [|exact Hs|].
       { intros a Ha. exact (proj1 (Ht a Ha)). }
       destruct (fail_each_inv k (fail_each k s (tag_errs errs 0 tcp)) (tag_errs errs (length tcp) ws))
-        as [H2 _]; [|exact H1|exact H2].
-      intros a Ha. rewrite Hk. exact (proj1 (Hw a Ha)).
-    - destruct (j0 mod (length tcp + length ws) <? length tcp)%nat.
+        as [H2 Hk2]; [|exact H1|].
+      { intros a Ha. rewrite Hk. exact (proj1 (Hw a Ha)). }
+      destruct (fail_each_inv k (fail_each k (fail_each k s (tag_errs errs 0 tcp)) (tag_errs errs (length tcp) ws))
+                  (tag_errs errs (length tcp + length ws) qu)) as [H3 _]; [|exact H2|exact H3].
+      intros a Ha. rewrite Hk2, Hk. exact (proj1 (Hq a Ha)).
+    - destruct (j0 mod (length tcp + length ws + length qu) <? length tcp)%nat.
       + apply succeed_at_inv; assumption.
-      + apply succeed_at_inv; assumption.
+      + destruct (j0 mod (length tcp + length ws + length qu) <? length tcp + length ws)%nat;
+          apply succeed_at_inv; assumption.
   Qed.
 End InsertKnown.
 
@@ -922,7 +929,7 @@ Section BookInv.
   Proof.
     intros [Hl Hb] Hwf.
     destruct o as [peer addrs order victims | a f victim | peer a listener victim
-                  | peer limit obs | a | a | n | peer outcome errs tcp ws
+                  | peer limit obs | a | a | n | peer outcome errs tcp ws qu
                   | peer a sc victim | a res victims | a | a]; cbn [step].
     - destruct (same_set order (accepted c (lst st) peer addrs)) eqn:Hss; [|split; assumption].
       pose proof (insert_all_inv peer (get_or_empty peer (bk st)) order victims
@@ -947,17 +954,19 @@ Section BookInv.
     - split; assumption.
     - split; assumption.
     - cbn [fst lst bk]. split; [|exact Hb]. intros x Hx. apply in_or_app. left. exact (Hl _ Hx).
-    - destruct (en_tcp c || feat_ws c && en_ws c); cbn [fst lst bk]; split; assumption.
+    - destruct (en_tcp c || feat_ws c && en_ws c || feat_quic c && en_quic c); cbn [fst lst bk]; split; assumption.
     - set (s := get_or_empty peer (bk st)).
       destruct (existsb (fun x => negb (enabled c (route c (fst x)) && names peer (fst x))) s) eqn:Hg;
         [split; assumption|].
       destruct (free_capacity c st (length s)) as [limit|]; [|split; assumption].
       destruct (N.eqb peer (local_peer c)); [split; assumption|].
       destruct s as [|x0 s0] eqn:Hs; [split; assumption|]. rewrite <- Hs in *.
-      destruct (forallb (fun a => mem a s) (tcp ++ ws)) eqn:Hm; cbn [andb]; [|split; assumption].
+      destruct (forallb (fun a => mem a s) (tcp ++ ws ++ qu)) eqn:Hm; cbn [andb]; [|split; assumption].
       destruct (forallb (fun a => match route c a with TTcp => true | _ => false end) tcp &&
                 forallb (fun a => match route c a with TWs => true | _ => false end) ws &&
-                addresses_ok limit s (merge_desc (with_scores s tcp) (with_scores s ws)));
+                forallb (fun a => match route c a with TQuic => true | _ => false end) qu &&
+                addresses_ok limit s (merge_desc (merge_desc (with_scores s tcp) (with_scores s ws))
+                                                 (with_scores s qu)));
         [|split; assumption].
       cbn [fst set_bk lst bk]. split; [exact Hl|]. apply binv_put; [exact Hb|].
       apply dial_outcome_inv; [|exact (binv_get_or_empty (bk st) peer Hb)].
@@ -1399,39 +1408,33 @@ Proof.
   inversion H; subst. apply IH. assumption.
 Qed.
 
+Lemma fail_each_app k s l1 l2 : fail_each k (fail_each k s l1) l2 = fail_each k s (l1 ++ l2).
+Proof.
+  revert s. induction l1 as [|[a e] t IH]; intro s; cbn [fail_each app]; [reflexivity|]. apply IH.
+Qed.
+
+(* the attempts of a dial, in the order tcp ++ ws ++ qu, each with its error kind *)
+Definition attempts (errs : list dial_error) (tcp ws qu : list maddr) : list (maddr * dial_error) :=
+  tag_errs errs 0 tcp ++ tag_errs errs (length tcp) ws ++ tag_errs errs (length tcp + length ws) qu.
+
+Lemma attempts_fst errs tcp ws qu : map fst (attempts errs tcp ws qu) = tcp ++ ws ++ qu.
+Proof. unfold attempts. rewrite !map_app, !tag_errs_fst. reflexivity. Qed.
+
 (* every attempt failed: exactly the tried addresses are re-scored, each to the score of the
    error kind its attempt failed with *)
-Lemma dial_all_fail_find k s peer errs tcp ws b :
-  NoDup (keys s) -> NoDup (tcp ++ ws) -> (forall a, In a (tcp ++ ws) -> In a (keys s)) ->
+Lemma dial_all_fail_find k s peer errs tcp ws qu b :
+  NoDup (keys s) -> NoDup (tcp ++ ws ++ qu) -> (forall a, In a (tcp ++ ws ++ qu) -> In a (keys s)) ->
   (forall e, error_score k e <> 0) ->
-  find b (dial_outcome k s peer 0 errs tcp ws) =
-    match lookup_err b (tag_errs errs 0 tcp ++ tag_errs errs (length tcp) ws) with
+  find b (dial_outcome k s peer 0 errs tcp ws qu) =
+    match lookup_err b (attempts errs tcp ws qu) with
     | Some e => Some (error_score k e)
     | None => find b s
     end.
 Proof.
-  intros Hnd Hndl Hl Hf. cbn [dial_outcome].
-  assert (Ht : forall a, In a (map fst (tag_errs errs 0 tcp)) -> In a (keys s)).
-  { intros a Ha. rewrite tag_errs_fst in Ha. apply Hl, in_or_app. now left. }
-  assert (Hw : forall a, In a (map fst (tag_errs errs (length tcp) ws)) -> In a (keys s)).
-  { intros a Ha. rewrite tag_errs_fst in Ha. apply Hl, in_or_app. now right. }
-  pose proof (fail_each_keys k s _ Ht) as Hk.
-  rewrite fail_each_find; [|rewrite Hk; exact Hnd|rewrite tag_errs_fst; exact (nodup_app_r _ _ Hndl)
-                           |intros a Ha; rewrite Hk; exact (Hw _ Ha)|exact Hf].
-  rewrite fail_each_find; [|exact Hnd|rewrite tag_errs_fst; exact (nodup_app_l _ _ Hndl)|exact Ht|exact Hf].
-  rewrite lookup_err_app.
-  destruct (lookup_err b (tag_errs errs 0 tcp)) as [e1|] eqn:E1;
-    destruct (lookup_err b (tag_errs errs (length tcp) ws)) as [e2|] eqn:E2; try reflexivity.
-  (* an address in both lists: excluded by NoDup *)
-  exfalso.
-  assert (H1 : In b tcp).
-  { rewrite <- (tag_errs_fst errs 0 tcp). exact (lookup_err_some _ _ _ E1). }
-  assert (H2 : In b ws).
-  { rewrite <- (tag_errs_fst errs (length tcp) ws). exact (lookup_err_some _ _ _ E2). }
-  clear - Hndl H1 H2. induction tcp as [|x t IH]; [destruct H1|].
-  cbn [app] in Hndl. inversion Hndl as [|? ? Hx Hd]; subst. destruct H1 as [->|H1].
-  - apply Hx. apply in_or_app. now right.
-  - exact (IH Hd H1).
+  intros Hnd Hndl Hl Hf. cbn [dial_outcome]. rewrite !fail_each_app.
+  fold (attempts errs tcp ws qu).
+  apply fail_each_find; [exact Hnd | rewrite attempts_fst; exact Hndl | | exact Hf].
+  intros a Ha. rewrite attempts_fst in Ha. exact (Hl a Ha).
 Qed.
 
 (* attempt j succeeded after the earlier ones on that transport failed: the address used gets
@@ -1485,18 +1488,19 @@ Qed.
 (* dial(peer): the lists handed to the transports' open() are, merged, a valid
    addresses(limit) selection for limit = free outbound capacity; every address goes to the
    installed transport it is routed to; the outcome is then recorded by dial_outcome *)
-Lemma step_dial_tried c k st peer outcome errs tcp ws t w st' :
-  step c k st (ODial peer outcome errs tcp ws) = (st', RDial (DTried t w)) ->
+Lemma step_dial_tried c k st peer outcome errs tcp ws qu t w q st' :
+  step c k st (ODial peer outcome errs tcp ws qu) = (st', RDial (DTried t w q)) ->
   let s := get_or_empty peer (bk st) in
   exists limit,
     free_capacity c st (length s) = Some limit /\
     peer <> local_peer c /\
-    t = with_scores s tcp /\ w = with_scores s ws /\
-    addresses_ok limit s (merge_desc t w) = true /\
-    Permutation (merge_desc t w) (t ++ w) /\
+    t = with_scores s tcp /\ w = with_scores s ws /\ q = with_scores s qu /\
+    addresses_ok limit s (merge_desc (merge_desc t w) q) = true /\
+    Permutation (merge_desc (merge_desc t w) q) (t ++ w ++ q) /\
     Forall (fun a => In a (keys s) /\ names peer a = true /\ route c a = TTcp /\ enabled c TTcp = true) tcp /\
     Forall (fun a => In a (keys s) /\ names peer a = true /\ route c a = TWs /\ enabled c TWs = true) ws /\
-    st' = set_bk st (put peer (dial_outcome k s peer outcome errs tcp ws) (bk st)).
+    Forall (fun a => In a (keys s) /\ names peer a = true /\ route c a = TQuic /\ enabled c TQuic = true) qu /\
+    st' = set_bk st (put peer (dial_outcome k s peer outcome errs tcp ws qu) (bk st)).
 Proof.
   cbn [step]. set (s := get_or_empty peer (bk st)). cbn zeta.
   destruct (existsb (fun x => negb (enabled c (route c (fst x)) && names peer (fst x))) s) eqn:Hg;
@@ -1504,15 +1508,18 @@ Proof.
   destruct (free_capacity c st (length s)) as [limit|] eqn:Hc; [|discriminate].
   destruct (N.eqb peer (local_peer c)) eqn:Hp; [discriminate|].
   destruct s as [|x0 s0] eqn:Hs; [discriminate|]. rewrite <- Hs in *.
-  destruct (forallb (fun a => mem a s) (tcp ++ ws)) eqn:Hm; cbn [andb]; [|discriminate].
+  destruct (forallb (fun a => mem a s) (tcp ++ ws ++ qu)) eqn:Hm; cbn [andb]; [|discriminate].
   destruct (forallb (fun a => match route c a with TTcp => true | _ => false end) tcp) eqn:Hrt;
     cbn [andb]; [|discriminate].
   destruct (forallb (fun a => match route c a with TWs => true | _ => false end) ws) eqn:Hrw;
     cbn [andb]; [|discriminate].
-  destruct (addresses_ok limit s (merge_desc (with_scores s tcp) (with_scores s ws))) eqn:Hok;
+  destruct (forallb (fun a => match route c a with TQuic => true | _ => false end) qu) eqn:Hrq;
+    cbn [andb]; [|discriminate].
+  destruct (addresses_ok limit s (merge_desc (merge_desc (with_scores s tcp) (with_scores s ws))
+                                             (with_scores s qu))) eqn:Hok;
     [|discriminate].
-  intros [= <- <- <-]. exists limit.
-  assert (Hfacts : forall a, In a (tcp ++ ws) ->
+  intros [= <- <- <- <-]. exists limit.
+  assert (Hfacts : forall a, In a (tcp ++ ws ++ qu) ->
             In a (keys s) /\ names peer a = true /\ enabled c (route c a) = true).
   { intros a Ha. rewrite forallb_forall in Hm. specialize (Hm _ Ha). apply mem_in in Hm.
     split; [exact Hm|]. apply in_map_iff in Hm. destruct Hm as [x [Hx1 Hx2]].
@@ -1524,12 +1531,16 @@ Proof.
   repeat split; try reflexivity.
   - apply N.eqb_neq. exact Hp.
   - exact Hok.
-  - apply merge_desc_perm.
+  - eapply Permutation_trans; [apply merge_desc_perm|]. rewrite app_assoc.
+    apply Permutation_app_tail. apply merge_desc_perm.
   - apply Forall_forall. intros a Ha. rewrite forallb_forall in Hrt. specialize (Hrt _ Ha).
     destruct (Hfacts a (in_or_app _ _ _ (or_introl Ha))) as [H1 [H2 H3]].
     destruct (route c a) eqn:Hr; try discriminate. repeat split; assumption.
   - apply Forall_forall. intros a Ha. rewrite forallb_forall in Hrw. specialize (Hrw _ Ha).
-    destruct (Hfacts a (in_or_app _ _ _ (or_intror Ha))) as [H1 [H2 H3]].
+    destruct (Hfacts a (in_or_app _ _ _ (or_intror (in_or_app _ _ _ (or_introl Ha))))) as [H1 [H2 H3]].
+    destruct (route c a) eqn:Hr; try discriminate. repeat split; assumption.
+  - apply Forall_forall. intros a Ha. rewrite forallb_forall in Hrq. specialize (Hrq _ Ha).
+    destruct (Hfacts a (in_or_app _ _ _ (or_intror (in_or_app _ _ _ (or_intror Ha))))) as [H1 [H2 H3]].
     destruct (route c a) eqn:Hr; try discriminate. repeat split; assumption.
 Qed.
 
@@ -1763,12 +1774,16 @@ Proof.
   apply insert_ranged; [|exact (proj1 Hk)]. apply insert_ranged; [exact H1 | exact (proj1 Hk)].
 Qed.
 
-Lemma dial_outcome_ranged k s peer outcome errs tcp ws :
-  kwf k -> ranged s -> ranged (dial_outcome k s peer outcome errs tcp ws).
+Lemma dial_outcome_ranged k s peer outcome errs tcp ws qu :
+  kwf k -> ranged s -> ranged (dial_outcome k s peer outcome errs tcp ws qu).
 Proof.
   intros Hk Hs. unfold dial_outcome. destruct outcome as [|j0].
-  - apply fail_each_ranged; [exact Hk|]. apply fail_each_ranged; assumption.
-  - destruct (j0 mod (length tcp + length ws) <? length tcp)%nat; apply succeed_at_ranged; assumption.
+  - apply fail_each_ranged; [exact Hk|]. apply fail_each_ranged; [exact Hk|].
+    apply fail_each_ranged; assumption.
+  - destruct (j0 mod (length tcp + length ws + length qu) <? length tcp)%nat;
+      [apply succeed_at_ranged; assumption|].
+    destruct (j0 mod (length tcp + length ws + length qu) <? length tcp + length ws)%nat;
+      apply succeed_at_ranged; assumption.
 Qed.
 
 Definition RInv (b : book) : Prop := forall p s, get p b = Some s -> ranged s.
@@ -1789,7 +1804,7 @@ Lemma step_ranged c k st o : kwf k -> RInv (bk st) -> op_i32 o -> RInv (bk (fst 
 Proof.
   intros Hk Hb Hw.
   destruct o as [peer addrs order victims | a f victim | peer a listener victim
-                | peer limit obs | a | a | n | peer outcome errs tcp ws
+                | peer limit obs | a | a | n | peer outcome errs tcp ws qu
                 | peer a sc victim | a res victims | a | a]; cbn [step].
   - destruct (same_set order (accepted c (lst st) peer addrs)); [|exact Hb].
     pose proof (insert_all_ranged k (get_or_empty peer (bk st)) order victims (rinv_get_or_empty _ peer Hb)) as H.
@@ -1808,7 +1823,7 @@ Proof.
   - exact Hb.
   - exact Hb.
   - exact Hb.
-  - destruct (en_tcp c || feat_ws c && en_ws c); exact Hb.
+  - destruct (en_tcp c || feat_ws c && en_ws c || feat_quic c && en_quic c); exact Hb.
   - destruct (existsb _ (get_or_empty peer (bk st))); [exact Hb|].
     destruct (free_capacity c st (length (get_or_empty peer (bk st)))); [|exact Hb].
     destruct (N.eqb peer (local_peer c)); [exact Hb|].
@@ -1918,7 +1933,7 @@ Proof.
   intros [Hf Hn].
   assert (Hsame : forall st', pubs st' = pubs st -> PInv c st') by (intros st' E; unfold PInv; rewrite E; split; assumption).
   destruct o as [peer addrs order victims | a f victim | peer a listener victim
-                | peer limit obs | a | a | n | peer outcome errs tcp ws
+                | peer limit obs | a | a | n | peer outcome errs tcp ws qu
                 | peer a sc victim | a res victims | a | a]; cbn [step].
   - destruct (same_set _ _); [|apply Hsame; reflexivity].
     destruct (insert_all _ _ _ _). apply Hsame. reflexivity.
@@ -1928,7 +1943,7 @@ Proof.
   - apply Hsame. reflexivity.
   - apply Hsame. reflexivity.
   - apply Hsame. reflexivity.
-  - destruct (en_tcp c || feat_ws c && en_ws c); apply Hsame; reflexivity.
+  - destruct (en_tcp c || feat_ws c && en_ws c || feat_quic c && en_quic c); apply Hsame; reflexivity.
   - destruct (existsb _ _); [apply Hsame; reflexivity|].
     destruct (free_capacity _ _ _); [|apply Hsame; reflexivity].
     destruct (N.eqb _ _); [apply Hsame; reflexivity|].
